@@ -278,9 +278,7 @@ pub fn run(ctx: &Ctx) -> i32 {
     // every compilation of this check is one tiny unit: 60 CPU seconds are several hundred times what it needs
     std::env::set_var("VERIF_RUSTC_CPU", "60");
     let n = ctx.scale(60000, 1000000);
-    let trees = check::draw(ctx.seed, 0xC17, n, 520);
-    let dnas: Vec<Vec<u16>> = trees.iter().map(|t| t.current()).collect();
-    drop(trees);
+    let dnas: Vec<Vec<u16>> = check::draw_values(ctx.seed, 0xC17, n, 520);
     // the expansions run in child processes: a stack overflow or abort in the subject kills a child, not this check,
     // and names the input that was being expanded; a child without progress for 240 s is killed (hang candidate)
     let muts: Vec<Result<(String, Vec<String>), String>> = dnas.par_iter().map(|d| mutant(d)).collect();
@@ -448,9 +446,7 @@ pub fn run(ctx: &Ctx) -> i32 {
     // parameter values and Into targets inside invisible None-delimited groups - valid and token-mutated
     {
         let n2 = ctx.scale(30000, 300000);
-        let trees2 = check::draw(ctx.seed, 0xC17A, n2, 520);
-        let dnas2: Vec<Vec<u16>> = trees2.iter().map(|t| t.current()).collect();
-        drop(trees2);
+        let dnas2: Vec<Vec<u16>> = check::draw_values(ctx.seed, 0xC17A, n2, 520);
         let srcs2: Vec<String> = dnas2.par_iter().map(|d| grouped_request(d)).collect();
         let isos2 = engine::expand_isolated("C17-iso-frag", &srcs2, false);
         let mut cands: Vec<(String, String, Vec<u16>)> = Vec::new();
